@@ -7,7 +7,7 @@ for f in sorted(glob.glob('/verif/seeded/RESULTS*.tsv')):
         if row['exit'] != '-': res[row['seeded']].append(row)
 print("| seeded change | property | what it changes / needs to manifest | caught by (quick tier; violation lines) | missed by |")
 print("|---|---|---|---|---|")
-for d in sorted(glob.glob('/verif/seeded/*/')):
+for d in sorted(glob.glob('/verif/seeded/C*/')):
     sid = os.path.basename(d.rstrip('/'))
     m = json.load(open(d + 'meta.json'))
     what = (m.get('what_changed') or m.get('what') or '')
